@@ -15,6 +15,9 @@ QUICK_SHARDS = 4
 MIN_NONTRIVIAL = 50
 FUZZ_RUNS = 240000     # thorough tier: atheris executions (all children)
 RULE = (
+    "Every derivation is carried out twice; the edit must be invisible "
+    "through the sibling as well, and the derivation must return a new "
+    "object each time. "
     "Source recipe (all classes, attributes on atoms and bonds, descriptors, "
     "changes) x derivation in {copy(), copy-constructor (same class and "
     "every cross-class construction), relabel_atoms(copy=True), subgraph(S), "
@@ -168,13 +171,22 @@ def check_case(ctx, case):
     g = rc.build(case["src"])
     try:
         d = derive(g, case)
+        # a second, independent derivation of the same kind: siblings must
+        # not share state with each other either (caches keyed by content)
+        d_sib = derive(g, case)
         sg, sd = snapshot(g, "x", deep=False), snapshot(d, "x", deep=False)
+        s_sib = snapshot(d_sib, "x", deep=False)
     except HarnessError:
         raise
     except Exception:
         # a failing derivation is the business of C08/C11/C15/C17
         ctx.exclude(f"derivation-failed:{name}")
         return None
+    if d_sib is d or d is g:
+        raise Violation(f"C10/{name}/same-object",
+                        "the derivation returned an object it had handed "
+                        "out before" if d_sib is d else
+                        "the derivation returned its source")
     edited, other, s_other = (d, g, sg) if case["side"] == "derived" \
         else (g, d, sd)
     s_edit = sd if case["side"] == "derived" else sg
@@ -209,6 +221,17 @@ def check_case(ctx, case):
             f"C10/{name}/leaks-{diff_kind(diff)}",
             f"{op} on the {case['side']} graph is visible through the "
             f"other one: {diff}")
+    try:
+        s_sib2 = snapshot(d_sib, f"C10/{name}/leaks-into-sibling")
+    except Violation as v:
+        raise Violation(v.sig, f"after {op} on the {case['side']} graph: "
+                        f"{v.msg}")
+    diff = snap_diff(s_sib, s_sib2, "exact")
+    if diff:
+        raise Violation(
+            f"C10/{name}/leaks-into-sibling-{diff_kind(diff)}",
+            f"{op} on the {case['side']} graph is visible through a second "
+            f"graph derived the same way: {diff}")
     return op, edited_key_shared(op, s_other)
 
 
